@@ -56,11 +56,18 @@ buffer's size; anything when the client does not know the size); whether
 Buffer.write() appends the header format to a path without extension; whether
 Synth.seti() cuts a list value that does not fit the control; objects of the
 second server are not used while a bind() block of the default server is
-open (whose block they belong to is not decided); bind() blocks whose bundle
-exceeds one UDP datagram, `yield from s.sync()` inside a block and the
+open (whose block they belong to is not decided); `yield from s.sync()` inside a block and the
 file-based Buffer transfers (load_list, new_load_list: write a temp file with
 a random name and leave it behind; load_to_list: reads a file only a running
 server writes) are not in the alphabet.
+
+E1 family 'bigblock' (check_bigblock): one bind() block holding 100..2500
+/n_set commands, 100..1500 synth creations, one /b_setn of 1000..15000
+values, or such a message between small commands, with encoded sizes just
+under / over 8192 bytes, mid-range, just under / over the datagram limit
+(65504 bytes).  Up to the limit exactly ONE bundle is demanded (size computed
+with the independent encoder); above it any number of bundles is accepted;
+order and content are strict everywhere.
 
 E1 family 'stream' (check_stream): Buffer.send_list / new_send_list with
 {1, 1625, 1626, 1627, 3252, 3253, 4000} samples, 1|2 channels, start frame
@@ -2099,8 +2106,8 @@ SYSTEMS = {'client': ClientSys}
 
 
 def replay(job):
-    if job['case'].get('family') == 'stream':
-        dis = check_stream(job['case'])
+    if job['case'].get('family') in ('stream', 'bigblock'):
+        dis = _e1(job['case'])[0]
         return {'violates': any(d[0] == job['kind'] for d in dis),
                 'disagreements': [[d[0], repr(d[1])[:400], repr(d[2])[:400]]
                                   for d in dis]}
@@ -2248,20 +2255,150 @@ def check_stream(case):
     return dis
 
 
+# --- E1 family 'bigblock': bind() blocks of 8 KB ... 64 KB and beyond ---------
+# The statement: the commands of a block reach the wire as ONE bundle, in
+# issue order.  The library may only split a block that cannot fit one UDP
+# datagram (NetAddr._MAX_UDP_DGRAM_SIZE = 65504 bytes, a documented limit of
+# the transport): up to that size exactly one bundle is demanded; above it any
+# number of bundles is accepted, order and content stay strict.  The size of
+# the one-bundle encoding is computed by the independent encoder (osc10) from
+# the expected messages.
+
+UDP_LIMIT = 65504
+# 36 bytes per '/n_set id freq i' element: 227|228 straddle 8192, 1819|1820
+# straddle 65504; a '/b_setn id 0 K f...' alone: 1629|1630 and 13091|13092
+BIG_SETS = [100, 226, 227, 228, 229, 400, 800, 1500, 1818, 1819, 1820, 1821,
+            2500]
+BIG_SNEW = [100, 126, 127, 128, 129, 150, 300, 800, 1022, 1023, 1024, 1025,
+            1500]       # 64 bytes per '/s_new default id 0 1 freq f amp a'
+BIG_BLOB = [1000, 1628, 1629, 1630, 1631, 2048, 6000, 10000, 13090, 13091,
+            13092, 13093, 15000]
+BIG_MIX = [[6000, 0, 1], [6000, 100, 100], [10000, 300, 0], [13000, 0, 12],
+           [13000, 6, 6], [13000, 7, 7], [13000, 200, 200], [1600, 1, 0]]
+
+
+def bigblock_cases():
+    for n in BIG_SETS:
+        yield {'family': 'bigblock', 'what': 'set', 'n': n}
+    for n in BIG_SNEW:
+        yield {'family': 'bigblock', 'what': 'snew', 'n': n}
+    for k in BIG_BLOB:
+        yield {'family': 'bigblock', 'what': 'blob', 'n': k}
+    for k, before, after in BIG_MIX:
+        yield {'family': 'bigblock', 'what': 'mix', 'n': k,
+               'before': before, 'after': after}
+
+
+def check_bigblock(case):
+    """-> (disagreements, size of the one-bundle encoding, bundles seen)"""
+    from sc3.synth.buffer import Buffer
+    sys_ = ClientSys({'fams': ['node', 'buf']})
+    nod = sys_._classes()
+    s = sys_.s
+    dis = []
+    what, n = case['what'], case['n']
+    exp = []
+    try:
+        syn = nod.Synth(DEFNAME)
+        buf = Buffer(16384, 1)
+        sid, bid = syn.node_id, buf.bufnum
+        del sys_.packets[:], sys_.targets[:]
+
+        def sets(lo, hi):
+            for i in range(lo, hi):
+                syn.set('freq', i)
+                exp.append(['/n_set', sid, 'freq', i])
+
+        def blob(k):
+            vals = [_sample(i) for i in range(k)]
+            buf.setn(0, vals)
+            exp.append(['/b_setn', bid, 0, k] + vals)
+        with s.bind():
+            if what == 'set':
+                sets(0, n)
+            elif what == 'snew':
+                for i in range(n):
+                    x = nod.Synth(DEFNAME, ['freq', 440 + i, 'amp', 0.5])
+                    exp.append(['/s_new', DEFNAME, x.node_id, 0,
+                                DEFAULT_GROUP, 'freq', 440 + i, 'amp', 0.5])
+            elif what == 'blob':
+                blob(n)
+            else:
+                sets(0, case['before'])
+                blob(n)
+                sets(case['before'], case['before'] + case['after'])
+            if sys_.packets:
+                dis.append(('bind-leak', 'nothing on the wire while the '
+                            'bind() block is open', len(sys_.packets), ''))
+    except Exception as e:
+        return [(f'op-raises:bigblock', 'no exception',
+                 f'{type(e).__name__}: {e}', '')], 0, 0
+    size = 16 + sum(4 + len(osc10.encode_message(m[0], m[1:])) for m in exp)
+    packets = list(sys_.packets)
+    obs = []
+    for raw in packets:
+        wire, werr = sys_._decode([raw])
+        dis += werr
+        obs += [[a] + atoms(t) for a, t in wire]
+    bad = [t for t in sys_.targets if t != sys_.srv_target[0]]
+    if bad:
+        dis.append(('wrong-server:bind', sys_.srv_target[0], bad[:3], ''))
+    if size <= UDP_LIMIT and len(packets) != 1:
+        dis.append(('bind-exit-not-one-bundle',
+                    f'1 bundle with {len(exp)} messages ({size} bytes, the '
+                    f'datagram limit is {UDP_LIMIT})',
+                    f'{len(packets)} bundles of '
+                    f'{[len(p) - 4 for p in packets][:12]} bytes', ''))
+    if not same_seq(exp, obs):
+        kind = 'bind-exit-order' if len(exp) == len(obs) and \
+            sorted(map(core.canon, exp)) == sorted(map(core.canon, obs)) \
+            else 'bind-exit-content'
+        first = next((i for i, (a, b) in enumerate(zip(exp, obs))
+                      if not same_msg(a, b)), min(len(exp), len(obs)))
+        dis.append((kind, f'{len(exp)} messages in issue order',
+                    f'{len(obs)} messages in {len(packets)} bundles; first '
+                    f'difference at message {first}: '
+                    f'{[m[:6] for m in obs[first:first + 2]]} instead of '
+                    f'{[m[:6] for m in exp[first:first + 2]]}', ''))
+    try:
+        still = bool(s.addr.has_bundle())
+    except Exception as e:
+        still = f'{type(e).__name__}: {e}'
+    if still is not False:
+        dis.append(('bind-addr-not-restored', False, still, ''))
+    return dis, size, len(packets)
+
+
+def _e1(case):
+    """-> (disagreements, non-trivial, observable outcome)"""
+    if case['family'] == 'bigblock':
+        dis, size, nb = check_bigblock(case)
+        # non-trivial: the block is larger than 8192 bytes
+        return dis, size > 8192, [case['what'], case['n'], size, nb,
+                                  [d[0] for d in dis]]
+    dis = check_stream(case)
+    # non-trivial: the transfer needs more than one packet
+    big = case['n'] is None or case['n'] > 1626
+    return dis, big, [case['entry'], case['n'], case['ch'], case['start'],
+                      [d[0] for d in dis]]
+
+
+def e1_cases():
+    yield from stream_cases()
+    yield from bigblock_cases()
+
+
 def stream_work(job):
     viol = {}
     n = nt = nviol = 0
     outcomes = set()
-    for idx, case in enumerate(stream_cases()):
+    for idx, case in enumerate(e1_cases()):
         if idx % job['of'] != job['shard']:
             continue
-        dis = check_stream(case)
+        dis, big, outcome = _e1(case)
         n += 1
-        # non-trivial: the transfer needs more than one packet
-        big = case['n'] is None or case['n'] > 1626
         nt += 1 if big else 0
-        outcomes.add(core.digest([case['entry'], case['n'], case['ch'],
-                                  case['start'], [d[0] for d in dis]]))
+        outcomes.add(core.digest(outcome))
         for kind, exp, obs, detail in dis:
             nviol += 1
             c = dict(case)
@@ -2292,6 +2429,11 @@ def run_stream(ctx):
             ctx.violation(v)
         for o in res['out']:
             ctx.outcomes.add(o)
+    ctx.bounds['bigblock'] = {
+        'cases': len(list(bigblock_cases())), 'n_set commands': BIG_SETS,
+        's_new commands': BIG_SNEW, 'b_setn values': BIG_BLOB,
+        'mixed [values, sets before, sets after]': BIG_MIX,
+        'one bundle demanded up to bytes': UDP_LIMIT}
     ctx.bounds['stream'] = {
         'cases': total, 'lengths': STREAM_LENS, 'get_lengths': GET_LENS,
         'channels': [1, 2], 'start': [0, 3], 'wait': STREAM_WAITS}
@@ -2550,7 +2692,10 @@ def main(ctx):
         'which); after every step the decoded wire (with the server address '
         'each entry was sent to) is '
         'compared with the command reference and a per-server set-of-ids '
-        'model. Plus an E1 family of 464 routine-driven transfers '
+        'model. Plus an E1 family of 47 big bind() blocks (8 KB ... 90 KB: '
+        'one bundle up to the 65504-byte datagram limit, any split above, '
+        'order/content strict; non-trivial = larger than 8192 bytes) and an '
+        'E1 family of 464 routine-driven transfers '
         '(send_list/new_send_list/get_to_list around the packet boundary, '
         'run by main.process(); non-trivial = more than one packet). States '
         'are deduplicated on model state + allocator contents + pending '
